@@ -284,6 +284,31 @@ func (c *WireCase) encode3(w *TraceWriter) []byte {
 		}
 		emit("stream", all, wl)
 	}()
+	// stream writer over a writer that runs out of room after `budget` bytes
+	seenB := map[int]bool{}
+	for _, budget := range []int{0, 1, 3, adv / 2, adv - 1, adv, adv + 5} {
+		if budget < 0 || seenB[budget] {
+			continue
+		}
+		seenB[budget] = true
+		func() {
+			bwr := &budgetWriter{budget: budget, fail: errBudget}
+			tw := thrift.NewBufferWriter(bwr)
+			var err error
+			panicked := false
+			func() {
+				defer func() {
+					if p := recover(); p != nil {
+						panicked = true
+					}
+				}()
+				err = stream(tw)
+			}()
+			tw.Recycle()
+			w.Ev("encb", "api", "stream", "kind", c.Kind, "val", val, "budget", budget, "ok", err == nil && !panicked, "panic", panicked,
+				"errsrc", err != nil && errors.Is(err, errBudget), "wrote", bwr.used)
+		}()
+	}
 	return canonical
 }
 
@@ -547,3 +572,29 @@ var (
 	famWireC03 = wireFamily("C03")
 	famWireC17 = wireFamily("C17")
 )
+
+// budgetWriter is a bufiox.Writer that accepts `budget` bytes and then fails every request with `fail`:
+// the stream writers must hand that error back (and must succeed when everything fits).
+type budgetWriter struct {
+	budget, used int
+	fail         error
+}
+
+var errBudget = errors.New("verif: writer budget exhausted")
+
+func (b *budgetWriter) Malloc(n int) ([]byte, error) {
+	if n < 0 || b.used+n > b.budget {
+		return nil, b.fail
+	}
+	b.used += n
+	return make([]byte, n), nil
+}
+func (b *budgetWriter) WriteBinary(bs []byte) (int, error) {
+	if b.used+len(bs) > b.budget {
+		return 0, b.fail
+	}
+	b.used += len(bs)
+	return len(bs), nil
+}
+func (b *budgetWriter) WrittenLen() int { return b.used }
+func (b *budgetWriter) Flush() error    { return nil }
